@@ -39,8 +39,9 @@ int ep_cmp(const ep_t p, const ep_t q) {
 	ep_t r, s;
 	int result = RLC_NE;
 
-	if (ep_is_infty(p) && ep_is_infty(q)) {
-		return RLC_EQ;
+	if (ep_is_infty(p) || ep_is_infty(q)) {
+		/* The cross-multiplication below is meaningless for z = 0. */
+		return (ep_is_infty(p) && ep_is_infty(q) ? RLC_EQ : RLC_NE);
 	}
 
 	ep_null(r);
